@@ -72,6 +72,9 @@ class C16(Prop):
         "that is not in the column."
         "Later additions: unsigned numpy / polars feature columns, a list of integer numpy rows (refusing a non-integer grid value with ValueError is "
         "accepted, truncating is not), exact-zero weights together with subsampling. "
+        "Ownership: list-of-rows and numpy containers are run through the store model (pdList / pdMatrix: objects with identities, "
+        "also a list in which one row object occurs several times); compared: the caller's X read back after the call and "
+        "whether the matrix shown to the predict function shares row objects / memory with the caller's X (never). "
     )
     assumptions = ["np.random.default_rng(seed).choice is the documented draw; predict functions are row-wise"]
 
@@ -102,6 +105,9 @@ class C16(Prop):
                 grid = [abs(g) for g in grid]  # a feature grid consists of values the column can take
             yield {"stream": "pd", "container": container, "rows": rows, "j": j, "k": kk, "grid": grid,
                    "grid_container": rng.choice(["list", "np", "polars", "polars_named"]), "w": w, "n_max": nmax, "seed": seed, "int_pred": rng.random() < 0.3,
+                   "pred_ret": rng.choice(["np", "np", "polars", "list_np"]),
+                   # a Python list X in which equal rows are ONE object occurring several times
+                   "share_rows": container in ("list", "list_np_int_rows") and rng.random() < 0.5,
                    "a": rng.randint(-2, 3), "b": rng.randint(-2, 2), "c": rng.randint(-1, 3)}
 
     def subsample(self, case):
@@ -115,6 +121,12 @@ class C16(Prop):
         from model_diagnostics._utils.partial_dependence import compute_partial_dependence
 
         X = build_X(case["container"], case["rows"])
+        if case.get("share_rows"):
+            first = {}
+            for i, r in enumerate(case["rows"]):
+                first.setdefault(tuple(r), i)
+            X = [X[first[tuple(r)]] for r in case["rows"]]
+        caller_rows = list(X) if isinstance(X, list) else None
         grid = case["grid"]
         if case["grid_container"] == "np":
             grid = np.array(grid, dtype=float)
@@ -129,14 +141,21 @@ class C16(Prop):
         before = (snapshot(X), snapshot(grid), snapshot(w))
         j, k, a, b, c = case["j"], case["k"], case["a"], case["b"], case["c"]
         shown = []
+        aliased = []
 
         def pred(Xs):
             xj, xk = column(Xs, j), column(Xs, k)
             ncol = len(case["rows"][0])
             shown.append([column(Xs, q).tolist() for q in range(ncol)])
+            if caller_rows is not None and isinstance(Xs, list):
+                aliased.append(any(r is cr for r in Xs for cr in caller_rows) or Xs is X)
+            elif isinstance(X, np.ndarray) and isinstance(Xs, np.ndarray):
+                aliased.append(bool(np.shares_memory(Xs, X)))
             val = a * xj * xk + b * xk * xk + c * xj
             if case.get("int_pred") and np.all(val == np.round(val)):
-                return val.astype(np.int64)  # a model that predicts whole numbers (counts, classes) as integers
+                val = val.astype(np.int64)  # a model that predicts whole numbers (counts, classes) as integers
+            if case.get("pred_ret") == "polars":
+                return pl.Series("prediction", val)  # a model that answers with a polars Series
             return val
 
         kw = {} if case["n_max"] is None else {"n_max": case["n_max"]}
@@ -148,8 +167,12 @@ class C16(Prop):
         except Exception as e:
             return {"err": exc_class(e), "msg": str(e)[:200]}
         after = (snapshot(X), snapshot(grid), snapshot(w))
+        if caller_rows is not None and (len(X) != len(caller_rows) or any(a is not b for a, b in zip(X, caller_rows))):
+            after = ("row objects of the caller's list were replaced",) + after[1:]
         return {"pd": [float(v) for v in r1], "pd2": [float(v) for v in r2], "unchanged": before == after,
-                "changed": [n for n, u, v in zip(("X", "grid", "weights"), before, after) if u != v], "shown": shown[0]}
+                "changed": [n for n, u, v in zip(("X", "grid", "weights"), before, after) if u != v], "shown": shown[0],
+                "aliased": aliased[0] if aliased else None,
+                "after_rows": [[float(column(X, q)[i]) for q in range(len(case["rows"][0]))] for i in range(len(case["rows"]))]}
 
     def model_request(self, case):
         r = {"op": "pd", "X": [enc_list(Fraction(v) for v in row) for row in case["rows"]], "j": case["j"], "k": case["k"],
@@ -158,7 +181,30 @@ class C16(Prop):
         sub = self.subsample(case)
         if sub is not None:
             r["sub"] = sub
+        own = self.ownership(case)
+        if own is not None:
+            # the ownership model (objects with identities): a Python list of row objects / one numpy matrix
+            r.pop("X")
+            r.update(op="pd_own", **own)
         return r
+
+    @staticmethod
+    def ownership(case):
+        rows = case["rows"]
+        if case["container"] in ("list", "tuple_rows", "list_np_int_rows"):
+            if case.get("share_rows"):
+                first, objs, refs = {}, [], []
+                for r in rows:
+                    if tuple(r) not in first:
+                        first[tuple(r)] = len(objs)
+                        objs.append(r)
+                    refs.append(first[tuple(r)])
+            else:
+                objs, refs = rows, list(range(len(rows)))
+            return {"container": "list", "objs": [enc_list(Fraction(v) for v in row) for row in objs], "refs": refs}
+        if case["container"].startswith("np_"):
+            return {"container": "matrix", "objs": [enc_list(Fraction(v) for v in row) for row in rows]}
+        return None
 
     def compare(self, case, io, mo):
         if "err" in io and self.refusal_ok(case, io):
@@ -168,6 +214,13 @@ class C16(Prop):
         for i, (u, v) in enumerate(zip(io["pd"], dec_list(mo["pd"]))):
             if not close(u, v, 1e-12, 1e-12):
                 return f"partial dependence at grid value {case['grid'][i]}: {u!r}, model {float(v)!r}"
+        if "caller_after" in mo:
+            want = [[float(v) for v in dec_list(row)] for row in mo["caller_after"]]
+            if io["after_rows"] != want:
+                return f"the caller's X after the call is {io['after_rows']}, model (ownership) {want}"
+            if io.get("aliased") is not None and io["aliased"] == mo["fresh"]:
+                return (f"the matrix shown to the predict function {'shares' if io['aliased'] else 'does not share'} objects / memory with the "
+                        f"caller's X; in the model every shown row is {'a fresh copy' if mo['fresh'] else 'the caller own object'}")
         return None
 
     @staticmethod
